@@ -1,0 +1,62 @@
+//! Plain-data snapshot of an [Actor] for the simulator (only with `--cfg mainline_verif`).
+
+use super::Actor;
+use crate::verif::Snapshot;
+
+impl Actor {
+    pub(crate) fn verif_snapshot(&self) -> Snapshot {
+        let info = self.info();
+
+        let mut put_senders: Vec<([u8; 20], usize)> = self
+            .put_senders
+            .iter()
+            .map(|(id, senders)| (*id.as_bytes(), senders.len()))
+            .collect();
+        put_senders.sort();
+
+        let mut get_senders: Vec<([u8; 20], usize)> = self
+            .get_senders
+            .iter()
+            .map(|(id, senders)| (*id.as_bytes(), senders.len()))
+            .collect();
+        get_senders.sort();
+
+        let mut iterative_queries: Vec<_> = self
+            .core
+            .iterative_queries
+            .values()
+            .map(|q| q.verif_snapshot())
+            .collect();
+        iterative_queries.sort_by_key(|q| q.target);
+
+        let mut put_queries: Vec<_> = self
+            .core
+            .put_queries
+            .values()
+            .map(|q| q.verif_snapshot())
+            .collect();
+        put_queries.sort_by_key(|q| q.target);
+
+        Snapshot {
+            id: *self.id().as_bytes(),
+            local_addr: self.socket.local_addr(),
+            server_mode: self.core.server_mode,
+            firewalled: self.core.firewalled,
+            public_address: self.core.public_address,
+            bootstrap: self.core.bootstrap.to_vec(),
+            routing_table: self.core.routing_table.verif_snapshot(),
+            signed_peers_routing_table: self.core.signed_peers_routing_table.verif_snapshot(),
+            iterative_queries,
+            put_queries,
+            put_senders,
+            get_senders,
+            cached_iterative_queries: self.core.verif_cached_snapshot(),
+            store: self.core.server.verif_snapshot(),
+            socket: self.socket.verif_snapshot(),
+            since_table_refresh_ns: self.core.last_table_refresh.elapsed().as_nanos() as u64,
+            since_table_ping_ns: self.core.last_table_ping.elapsed().as_nanos() as u64,
+            info_dht_size_estimate: info.dht_size_estimate(),
+            info_routing_table_size: info.routing_table_size(),
+        }
+    }
+}
